@@ -12,3 +12,37 @@ Theorem C14_sort_independent :
          forall l l' : list A, Permutation l l' -> isort A leb l = isort A leb l'.
 Proof. exact SortOrder.isort_order_independent. Qed.
 Print Assumptions C14_sort_independent.
+
+From YG Require Import LRBase Resolve TableCert OrderIndep.
+Close Scope Z_scope.
+Open Scope nat_scope.
+
+(* the table generator consults each lookahead set only through membership: whatever order (and with whatever repetitions) the elements of the DR/Read/Follow/lookahead sets are produced in, every cell of the generated table is the same *)
+Theorem C14_lookahead_sets_as_sets :
+  forall (g : grammar) (aut : automaton) (la1 la2 : nat -> nat -> list nat)
+           (sprec rprec : nat -> Z * assoc),
+         (forall q r : nat, Permutation (la1 q r) (la2 q r)) ->
+         forall q a : nat, gen_table g aut la1 sprec rprec q a = gen_table g aut la2 sprec rprec q a.
+Proof. exact OrderIndep.gen_table_permutation. Qed.
+Print Assumptions C14_lookahead_sets_as_sets.
+
+From YG Require Import Front OrderIndep.
+Close Scope Z_scope.
+Open Scope nat_scope.
+
+(* the identifier table is a Go map; it is consumed only through sortedNames: for every permutation of the table the identifiers reach BuildLALR1 (and the automatic numbering, and the emitted constants) in the same order *)
+Theorem C14_identifier_table_order :
+  forall t1 t2 : list ident,
+         Permutation t1 t2 -> NoDup (map i_name t1) -> ordered_idents t1 = ordered_idents t2.
+Proof. exact OrderIndep.ordered_idents_order_independent. Qed.
+Print Assumptions C14_identifier_table_order.
+
+From YG Require Import Front OrderIndep.
+Close Scope Z_scope.
+Open Scope nat_scope.
+
+(* sortedNames: bytewise order is a total order, so the sorted list of names does not depend on the order in which the map delivered them *)
+Theorem C14_sorted_names :
+  forall l l' : list name, Permutation l l' -> sort_names l = sort_names l'.
+Proof. exact OrderIndep.sort_names_order_independent. Qed.
+Print Assumptions C14_sorted_names.
